@@ -1,5 +1,5 @@
 (* C04 - Durability never depends on unsynced data (power-loss safety). *)
-From Nomt Require Import Base SyncProto SyncProto_proofs SrcFacts_proofs.
+From Nomt Require Import Base SyncProto SyncProto_proofs.
 
 (* For EVERY trace accepted by the monitor, every cut and EVERY subset of the not-yet-fsynced
    operations surviving: exactly the old or exactly the new state. *)
@@ -41,10 +41,6 @@ Theorem C04_ht_fsync_necessary : exists I d0 tr n img,
   pl_image (drun d0 (firstn n tr)) img /\ recover I img = RBad.
 Proof. exact SyncProto_proofs.ht_fsync_necessary. Qed.
 Print Assumptions C04_ht_fsync_necessary.
-
-Theorem C04_sync_phase_order : sync_order_ok = true /\ sync_order_ok2 = true.
-Proof. exact SrcFacts_proofs.sync_order_ok_true. Qed.
-Print Assumptions C04_sync_phase_order.
 
 (* With the truncation fsynced (the repaired protocol: every complete sync ends with
    [ET FWal 0; EF FWal]) the hypothesis re-establishes itself: after a disciplined complete sync
